@@ -345,7 +345,16 @@ def strip(e, unwrap=True):
     if t == "tmp":
         return strip(e[1], unwrap)
     if t == "field":
-        return ("field", strip(e[1], unwrap), e[2], e[3] if len(e) > 3 else "")
+        inner = strip(e[1], unwrap)
+        # a captured variable read through a closure value that is visible here (its call was spliced in): the captured operand
+        if inner[0] == "agg" and inner[1] == "closure" and len(inner) > 4:
+            for i_, n_ in enumerate(inner[4]):
+                if (n_ == e[2] or n_.lstrip("*") == e[2].lstrip("*")) and i_ < len(inner[3]):
+                    return inner[3][i_]
+        # a field of a tuple / struct literal: the operand
+        if inner[0] == "agg" and inner[1] == "tuple" and e[2].isdigit() and int(e[2]) < len(inner[3]):
+            return inner[3][int(e[2])]
+        return ("field", inner, e[2], e[3] if len(e) > 3 else "")
     if t == "index":
         return ("index", strip(e[1], unwrap), strip(e[2], unwrap))
     if t == "cindex":
